@@ -65,15 +65,18 @@ def withdrawOk (s : St) (d : Addr) (a : Int) : St :=
 
 theorem runWithdraw_cases (s : St) (v d : Addr) (a : Int) :
     ((runWithdraw s v d a).1 = s ∧ (runWithdraw s v d a).2 ≠ .ok) ∨
-    (s.frozen v = false ∧ a ≤ s.bnd d ∧ runWithdraw s v d a = (withdrawOk s d a, .ok)) := by
+    (s.frozen v = false ∧ frozenOwner s d = false ∧ a ≤ s.bnd d ∧
+      runWithdraw s v d a = (withdrawOk s d a, .ok)) := by
   unfold runWithdraw
   by_cases hf : s.frozen v = true
   · left; simp [hf]
-  · by_cases hb : s.bnd d - a < 0
-    · left; simp [hf, hb]
-    · right
-      refine ⟨by simpa using hf, by omega, ?_⟩
-      simp [hf, hb, withdrawOk]
+  · by_cases hfo : frozenOwner s d = true
+    · left; simp [hf, hfo]
+    · by_cases hb : s.bnd d - a < 0
+      · left; simp [hf, hfo, hb]
+      · right
+        refine ⟨by simpa using hf, by simpa using hfo, by omega, ?_⟩
+        simp [hf, hfo, hb, withdrawOk]
 
 /-- the record written by `HandleStake` -/
 def stakeRec (s : St) (v d : Addr) (a : Int) (u : Bool) : VRec :=
@@ -239,15 +242,15 @@ theorem txUnstake_cases (s : St) (v d : Addr) (a : Int) :
 theorem txWithdraw_cases (s : St) (v d : Addr) (a : Int) :
     ((txWithdraw s v d a).1 = s ∧ (txWithdraw s v d a).2 ≠ .ok) ∨
     (0 < a ∧ a < two63 ∧ coinOf a = a * oltBase ∧ otherAddr s v d = false ∧ s.frozen v = false ∧
-      a ≤ s.bnd d ∧ txWithdraw s v d a = (withdrawOk s d a, .ok)) := by
+      frozenOwner s d = false ∧ a ≤ s.bnd d ∧ txWithdraw s v d a = (withdrawOk s d a, .ok)) := by
   unfold txWithdraw
   cases hv : validateOut s v d a with
   | some c => left; exact ⟨rfl, validateOut_ne_ok hv⟩
   | none =>
     have hr := validateOut_none hv
-    rcases runWithdraw_cases s v d a with h | ⟨hf, hb, he⟩
+    rcases runWithdraw_cases s v d a with h | ⟨hf, hfo, hb, he⟩
     · left; exact h
-    · right; exact ⟨hr.2.1, hr.2.2.1, hr.2.2.2, hr.1, hf, hb, he⟩
+    · right; exact ⟨hr.2.1, hr.2.2.1, hr.2.2.2, hr.1, hf, hfo, hb, he⟩
 
 /-- `UpdateWithdrawReward` point-wise -/
 theorem uwr_bnd (s : St) (h : Int) (d : Addr) :
@@ -270,10 +273,13 @@ theorem slash_none (c : Cfg) (s : St) (v : Addr) (h : s.prev v = none) :
 theorem slash_some (c : Cfg) (s : St) (v : Addr) (r' : VRec) (h : s.prev v = some r') :
     slash c s v =
       (let s0 : St := { s with frozen := upd s.frozen v true }
-       let s1 := (minusFromAddress s0 v r'.sa (c.pen (s.tot v))).1
-       { s1 with delayed := upd2 s1.delayed s.height v (some (c.pen (s.tot v))),
+       let sa := slashAddr s v r'
+       let m := minusFromAddress s0 v sa (c.pen (s.tot v))
+       let s1 := m.1
+       { s1 with delayed := if m.2 then upd2 s1.delayed s.height v (some (c.pen (s.tot v)))
+                            else s1.delayed,
                  req := upd s1.req v false,
-                 gPenal := upd s1.gPenal r'.sa (s1.gPenal r'.sa + (s.eff r'.sa - s1.eff r'.sa)) }) := by
+                 gPenal := upd s1.gPenal sa (s1.gPenal sa + (s.eff sa - s1.eff sa)) }) := by
   simp [slash, h]
 
 end OLP.Stake
